@@ -13,7 +13,7 @@ pub fn def() -> PropDef {
         judge,
         run,
         shrink: Shrink::Bytes,
-        render: render_bytes,
+        render: render_seq_or_bytes,
         rule: "every input of UX (all strings over {CR,LF,NUL,Q,U,I,T,P,SP,0x21,0x11} up to length 6/7; every signature prefix followed by every v1 baseline prefix; v1 baselines followed by v2 baselines and vice versa), the v1 slot / byte universes and U2-ctl / U2-sig / U2-byte / U2-len goes through HeaderResult::parse, v2::Header::try_from and v1::Header::try_from; the auto result must be the documented combination; non-trivial = input is non-empty and starts with a signature prefix or `P`; distinct = hash of the input",
         assumptions: &["this property is relative to the dedicated parsers by its own statement; their absolute correctness is C01 / C02"],
     }
@@ -67,7 +67,17 @@ pub fn ux_mixed() -> ListUniverse {
     ListUniverse { name: "UX-mixed".into(), what: "signature prefixes x v1 baseline prefixes; v1 lines followed by v2 headers and vice versa; v2 headers carrying v1 lines".into(), cases }
 }
 
-pub fn judge(input: &[u8], acc: &mut Acc) {
+pub fn judge(case: &[u8], acc: &mut Acc) {
+    match decode_seq(case) {
+        Some(parts) => {
+            history_differential(&parts, acc, &parse_entries());
+            judge_history_case(&parts, acc, warm_all, judge_plain)
+        }
+        None => judge_plain(case, acc),
+    }
+}
+
+pub fn judge_plain(input: &[u8], acc: &mut Acc) {
     let r2 = v2_parse(input);
     let r1 = v1_bytes(input);
     let ra = guard(|| HeaderResult::parse(input));
@@ -140,4 +150,6 @@ pub fn run(run: &Run) {
     let b = v1_bounds(run.tier);
     explore_all(run, &v1_universes(&b));
     explore_all(run, &v2_universes(run.tier));
+    explore_all(run, &seq_universes(run.tier, true, true));
+    run.explore(&super::c11::EmbeddedStructured::new(false));
 }
